@@ -95,6 +95,11 @@ func cmdFn(args []string) {
 					fmt.Printf("    WARNING: watch name %q matched no call, send or receive in this function or its callees\n", w)
 				}
 			}
+			for hn := range vc.heldAsk {
+				if !vc.mutexes[hn] {
+					fmt.Printf("    WARNING: held(%q) names no mutex that this function (or an inlined callee) locks or unlocks: the clause reads a constant\n", hn)
+				}
+			}
 			if len(vc.autoKept) > 0 {
 				fmt.Printf("    auto invariants: %s\n", strings.Join(vc.autoKept, "; "))
 			}
